@@ -72,26 +72,38 @@ def firstMin (vals : List (Slot Cost)) : Option (Nat × Cost) :=
     | _ :: rest => go rest (i+1) best
   go vals 0 none
 
+/-- `while k is None or ki < k` has ended -/
+def kReached (k : Option Nat) (ki : Nat) : Bool :=
+  match k with
+  | some kk => decide (kk ≤ ki)
+  | none => false
+
+/-- the positions `mb … e` blocked by an accepted match `[b, e]` -/
+def blockRange (overlap b e : Nat) : List Nat :=
+  (List.range (e + 1 - mbOf overlap b e)).map (· + mbOf overlap b e)
+
+/-- the candidate ending in `e` is discarded: too short, too long, or its range touches a blocked slot -/
+def candRejected (slots : List (Slot Cost)) (overlap : Nat) (minlen maxlen : Option Nat) (b e : Nat) : Bool :=
+  (match minlen with | some m => decide (e - b + 1 < m) | none => false) ||
+  (match maxlen with | some m => decide (m < e - b + 1) | none => false) ||
+  (blockRange overlap b e).any (fun j => slots.getD j Slot.rejected == Slot.blocked)
+
+def blockSlots (slots : List (Slot Cost)) (overlap b e : Nat) : List (Slot Cost) :=
+  (blockRange overlap b e).foldl (fun s j => s.set j Slot.blocked) slots
+
 /-- `_best_matches(k, overlap, minlength, maxlength)`; returns the yielded `(b, e)` in order -/
 def kbestRun (starts : List Nat) (lq overlap : Nat) (minlen : Option Nat) (maxlen : Option Nat) (k : Option Nat) :
     Nat → List (Slot Cost) → Nat → List (Nat × Nat)
   | 0, _, _ => []
   | fuel+1, slots, ki =>
-    if (match k with | some kk => decide (kk ≤ ki) | none => false) then [] else
+    if kReached k ki then [] else
     match firstMin slots with
     | none => []
     | some (e, _) =>
-      let b := starts.getD e 0
-      let len := e - b + 1
-      let tooShort : Bool := match minlen with | some m => decide (len < m) | none => false
-      let tooLong : Bool := match maxlen with | some m => decide (m < len) | none => false
-      let mb := mbOf overlap b e
-      let range := (List.range (e + 1 - mb)).map (· + mb)
-      if tooShort || tooLong || range.any (fun j => slots.getD j Slot.rejected == Slot.blocked) then
+      if candRejected slots overlap minlen maxlen (starts.getD e 0) e then
         kbestRun starts lq overlap minlen maxlen k fuel (slots.set e Slot.rejected) ki
       else
-        let slots' := range.foldl (fun s j => s.set j Slot.blocked) slots
-        (b, e) :: kbestRun starts lq overlap minlen maxlen k fuel slots' (ki + 1)
+        (starts.getD e 0, e) :: kbestRun starts lq overlap minlen maxlen k fuel (blockSlots slots overlap (starts.getD e 0) e) (ki + 1)
 
 /-- initial working copy: `matching[:min(len(query) - 1, overlap)] = maxv` -/
 def kbestInit (vals : List Cost) (lq overlap : Nat) : List (Slot Cost) :=
